@@ -170,3 +170,31 @@ Theorem C10_lts_model_passes : forall c fs sched,
   lts_ok c fs sched (fst (lts_model true c fs sched)) (snd (lts_model true c fs sched)) = true.
 Proof. exact lts_model_passes. Qed.
 Print Assumptions C10_lts_model_passes.
+
+(* ---------------------------------------------------------------------------------------------------------
+   A frame that closes a segment is two writer steps, "list" (close the store, then addSegment) and "finish";
+   fetchers may run in between.  (The theorems above are about the same, refined, transition system.) *)
+
+(* for every input and schedule, in every reachable state — also between the listing and the rest of the frame —
+   every listed segment has a closed (flushed) store, so a fetch at any point after the listing returns the
+   whole transport stream of that number *)
+Theorem C10_listed_segment_is_complete : forall c fs sched,
+  let l := lrun true c (linit c fs) sched in
+  (forall g, In g (pl (l_st l)) -> In (s_seq g) (l_flushed l)) /\
+  listed_complete c l = true /\
+  (forall seq g, find_seg seq (pl (l_st l)) = Some g ->
+     get_now c (l_flushed l) seq (l_st l) = FBytes (s_frames g)).
+Proof. exact listed_segment_is_complete. Qed.
+Print Assumptions C10_listed_segment_is_complete.
+
+(* the variant that completes the store after the listing: a disk-mode fetch between the two gets a partial file
+   (memory mode is unaffected; after the finish step the same fetch is fine; the system as it is passes) *)
+Theorem C10_listed_incomplete_refuted :
+  map fr_res (l_recs (lrun_gen true true disk_cfg (linit disk_cfg late_frames) late_sched))
+    = [Some FPartial; Some (expected_of disk_cfg late_frames)] /\
+  listed_complete disk_cfg (lrun_gen true true disk_cfg (linit disk_cfg late_frames) [LW; LW; LW]) = false /\
+  forallb fetch_ok (l_recs (lrun_gen true true disk_cfg (linit disk_cfg late_frames) late_sched)) = false /\
+  forallb fetch_ok (l_recs (lrun_gen true true d35_cfg (linit d35_cfg late_frames) late_sched)) = true /\
+  forallb fetch_ok (l_recs (lrun true disk_cfg (linit disk_cfg late_frames) late_sched)) = true.
+Proof. exact listed_incomplete_refuted. Qed.
+Print Assumptions C10_listed_incomplete_refuted.
